@@ -41,7 +41,7 @@ type obs struct {
 func TestC17(t *testing.T) {
 	world.Quiet()
 	run := rep.New("C17", "exploration",
-		"rate: for (rate 600/min, burst in {1,5,20}, global limit off/on) x client behaviours (1..8 TCP connections, keep-alive on/off, concurrent senders, one path / many paths incl. non-proxied ones / provider prefix / Anthropic route) a fixed number of requests is fired from 127.0.0.1 as fast as the connections allow; admitted = has a backend record; oracle: for every window of consecutive admissions (in backend receive order) their number never exceeds burst + rate x (last receive - earliest send), which a token bucket implies for every schedule, and every refused request is answered 429; first contact: 8 simultaneous first requests from each of several hundred fresh loopback source addresses (every trial a client the limiter has never seen) must not admit more than burst; size: bodies of L-1, L, L+1, 5L bytes around max_body_size with declared and chunked length on the proxy route must never reach a backend above L, and Anthropic requests above max_message_size get 413 in both encodings. distinct = distinct (config, behaviour) / (route, size, encoding)")
+		"rate: for (rate 600/min, burst in {1,5,20}, global limit off/on) x client behaviours (1..8 TCP connections, keep-alive on/off, concurrent senders, one path / many paths incl. non-proxied ones / provider prefix / Anthropic route) a fixed number of requests is fired from 127.0.0.1 as fast as the connections allow; admitted = has a backend record; oracle: for every window of consecutive admissions (in backend receive order) their number never exceeds burst + rate x (last receive - earliest send), which a token bucket implies for every schedule, and every refused request is answered 429; first contact: 8 simultaneous first requests from each of several hundred fresh loopback source addresses (every trial a client the limiter has never seen) must not admit more than burst; window rollover: a client's one-minute accounting window is aged by 61 s (hook) right after it drained its bucket - no new burst; size: bodies of L-1, L, L+1, 5L bytes around max_body_size with declared and chunked length on the proxy route must never reach a backend above L, and Anthropic requests above max_message_size get 413 in both encodings. distinct = distinct (config, behaviour) / (route, size, encoding)")
 	run.Assume("the rate inequality uses the client's send stamp and the backend's receive stamp, so scheduling delays can only loosen it; 'buffered beyond the limit' is not observable from outside the process and is not judged")
 	rng := rand.New(rand.NewSource(rep.Seed()))
 	var cfgs []rcfg
@@ -73,6 +73,8 @@ func TestC17(t *testing.T) {
 	}
 	wg.Wait()
 	freshClientBursts(run)
+	windowRollover(run)
+	run.Require("window_rollover_trials", 40)
 	if rep.Mode() == "race" {
 		run.Require("fresh_client_bursts", int64(rep.Pick(250, 1400)))
 	} else {
@@ -132,7 +134,7 @@ func rateScenario(run *rep.Run, c rcfg, bh behaviour, id int) {
 					path, body = "/olla/anthropic/v1/messages", `{"model":"mall","max_tokens":4,"messages":[{"role":"user","content":"x"}]}`
 				case "mixed-paths":
 					// every proxied path spends the same per-IP budget, also ones that merely look like Olla's own exempted endpoints
-				path = []string{"/olla/proxy/v1/chat/completions", "/olla/proxy/api/generate", "/olla/proxy/x/y", "/olla/ollama/api/chat", "/olla/proxy/health", "/olla/ollama/health/", "/olla/proxy/internal/health", "/olla/proxy/version", "/olla/proxy/internal/status"}[i%9]
+					path = []string{"/olla/proxy/v1/chat/completions", "/olla/proxy/api/generate", "/olla/proxy/x/y", "/olla/ollama/api/chat", "/olla/proxy/health", "/olla/ollama/health/", "/olla/proxy/internal/health", "/olla/proxy/version", "/olla/proxy/internal/status"}[i%9]
 					body = `{"model":"mall","messages":[]}`
 					if i%5 == 4 {
 						// non-proxied paths in between must not grant extra admissions
@@ -283,6 +285,65 @@ func freshClientBursts(run *rep.Run) {
 			if float64(admitted) > allowed+1e-6 {
 				run.Violation("C17/rate-bound-exceeded/first-contact", fmt.Sprintf("%d of %d simultaneous first requests of a new client (%s) were admitted within %.3f s; burst %d at %g/s allows %.2f", admitted, senders, ip, float64(lastRecv-firstSend)/1e9, burst, float64(perMin)/60.0, allowed),
 					map[string]any{"engine": eng, "client_ip": ip.String(), "admitted": admitted, "statuses": statuses})
+			}
+		}
+		w.Stop()
+		b.Close()
+	}
+}
+
+// windowRollover: the limiter keeps a one-minute accounting window per client next to the token
+// bucket. A client drains its bucket, its window is then made to look 61 s old (hook
+// VerifAgeWindows; the bucket is untouched and no real time passes), and it sends again: the
+// start of a new accounting window must not hand it a new burst.
+func windowRollover(run *rep.Run) {
+	for wi, eng := range []string{"sherpa", "olla"} {
+		b := backend.NewStd("b", []string{"mall"}, llmresp.Handler("b"))
+		const burst, perMin = 5, 600
+		w, err := world.Start(world.Spec{Engine: eng, Balancer: "priority", PerIPPerMin: perMin, Burst: burst,
+			Endpoints: []world.Endpoint{{Name: "b", URL: b.URL(), Type: "ollama", Priority: 100}}})
+		if err != nil {
+			run.Inconclusive("world failed to start: " + err.Error())
+			b.Close()
+			continue
+		}
+		for k := 0; k < 25; k++ {
+			ip := net.IPv4(127, byte(20+wi), 1, byte(1+k))
+			tr := &http.Transport{DialContext: (&net.Dialer{LocalAddr: &net.TCPAddr{IP: ip}, Timeout: 5 * time.Second}).DialContext}
+			hc := &http.Client{Transport: tr, Timeout: 10 * time.Second}
+			b.ResetRecords()
+			var firstSend int64
+			send := func(tag string, n int) {
+				for i := 0; i < n; i++ {
+					req, _ := http.NewRequest("POST", fmt.Sprintf("%s/olla/proxy/v1/chat/completions?n=w%dk%d%s%d", w.Base, wi, k, tag, i), bytes.NewReader([]byte(`{"model":"mall","messages":[]}`)))
+					req.Header.Set("Content-Type", "application/json")
+					res := client.Do(hc, req)
+					if firstSend == 0 {
+						firstSend = res.TCall
+					}
+				}
+			}
+			send("a", 2*burst) // drains the bucket
+			w.RateLimiter().VerifAgeWindows(61 * time.Second)
+			send("b", 2*burst)
+			tr.CloseIdleConnections()
+			b.WaitIdle(2 * time.Second)
+			var lastRecv int64
+			admitted := 0
+			for _, r := range b.ProxyRecords() {
+				if strings.Contains(r.RawQuery, fmt.Sprintf("n=w%dk%d", wi, k)) {
+					admitted++
+					if r.TRecv > lastRecv {
+						lastRecv = r.TRecv
+					}
+				}
+			}
+			run.Count("window_rollover_trials", 1)
+			run.Eval(fmt.Sprintf("window-rollover/%s/%d", eng, k))
+			allowed := float64(burst) + float64(perMin)/60.0*float64(lastRecv-firstSend)/1e9
+			if float64(admitted) > allowed+1e-6 {
+				run.Violation("C17/rate-bound-exceeded/window-rollover", fmt.Sprintf("%d of %d requests admitted within %.3f s around the rollover of the client's accounting window; burst %d at %g/s allows %.2f", admitted, 4*burst, float64(lastRecv-firstSend)/1e9, burst, float64(perMin)/60.0, allowed),
+					map[string]any{"engine": eng, "client_ip": ip.String(), "admitted": admitted})
 			}
 		}
 		w.Stop()
